@@ -6,7 +6,8 @@
      FieldStorage.read / iter_items (multipart.py:424, 477)  budget arithmetic only
    on top of model/Body.v (Content-Length) and model/Chunked.v (chunked).
    No proofs in this file.  Owned by cluster bodyA. *)
-From Verif Require Import lib.Base lib.Str model.Stream model.Body model.Chunked gen.Gen.
+From Verif Require Import lib.Base lib.Str lib.Utf8 model.Stream model.Body model.Chunked gen.Gen.
+From Verif Require Import model.MultipartRef model.Fields.
 
 (* ---- error mapping ---- *)
 
@@ -135,6 +136,85 @@ Fixpoint mp_budget (items : list mp_item) (max_read : Z) (i : nat) : budget_res 
     else mp_budget r (max_read - (h + d))%Z (S i)
   end.
 
+(* ---- the budget view of the real field layer (model/Fields.v, cluster mpB2) ----
+   [part_view body hsec dsec]: the triple of one part as FieldStorage.read sees it
+   — header bytes = e - s of the Headers section, data bytes of the Data section,
+   is_file = a filename option is present after header parsing — provided the
+   part can fail for no other reason than its size (header block at a
+   non-negative offset, decodable, parsed to a named field; a non-empty text
+   value at a non-negative offset and decodable). *)
+Definition part_view (body : bytes) (hsec dsec : Z * Z) : option mp_item :=
+  let (hs, he) := hsec in
+  let (ds, de) := dsec in
+  let sz := (he - hs)%Z in
+  let dsz := (de - ds)%Z in
+  if (hs <? 0)%Z then None
+  else
+    match utf8_dec (read_at body hs sz) with
+    | None => None
+    | Some raw =>
+      match read_headers (splitlines raw) None None None [] with
+      | Some (Some _, Some _, _, _) => Some (sz, dsz, true)
+      | Some (Some _, None, _, _) =>
+        if (dsz =? 0)%Z then Some (sz, dsz, false)
+        else if (ds <? 0)%Z then None
+        else match utf8_dec (read_at body ds dsz) with
+             | None => None
+             | Some _ => Some (sz, dsz, false)
+             end
+      | _ => None
+      end
+    end.
+
+(* the triples of a markup list (Headers, Data)* ; None: not that shape, or some part has no view *)
+Fixpoint triples_of (body : bytes) (m : list section) : option (list mp_item) :=
+  match m with
+  | [] => Some []
+  | (hk, hs, he) :: m' =>
+    match hk with
+    | Data => None
+    | Headers =>
+      match m' with
+      | [] => None
+      | (dk, ds, de) :: m'' =>
+        match dk with
+        | Headers => None
+        | Data =>
+          match part_view body (hs, he) (ds, de), triples_of body m'' with
+          | Some it, Some r => Some (it :: r)
+          | _, _ => None
+          end
+        end
+      end
+    end
+  end.
+
+(* FieldStorage.iter_items on the sections the one-piece scanner reports for
+   (boundary, body); the index of the refused part is read off mp_budget on the
+   model's own triples (proofs/C13_multipart.v: they agree) *)
+Definition mp_run (B body : bytes) (mem : Z) : list Z :=
+  let m := ref_obs B body in
+  match snd m with
+  | Some _ => [4%Z]
+  | None =>
+    match iter_items body (fst m) mem with
+    | IOk fs => [0%Z; Z.of_nat (length fs)]
+    | IErr ESize =>
+      let code := match raise_status Gen.errors_map cls_BodySizeError cls_RequestError with
+                  | Some c => c | None => (-1)%Z end in
+      match triples_of body (tl (fst m)) with
+      | Some items => match mp_budget items mem 0 with
+                      | BudgetExceeded i => [1%Z; Z.of_nat i; code]
+                      | BudgetOk _ => [7%Z]
+                      end
+      | None => [1%Z; (-1)%Z; code]
+      end
+    | IErr EParse => [2%Z]
+    | IErr ENegSeek => [3%Z]
+    | IAssert => [3%Z]
+    end
+  end.
+
 (* ---- correspondence interface ---- *)
 
 Definition enc_resp (r : resp) : list Z :=
@@ -160,18 +240,15 @@ Definition dec_item (l : list Z) : option (mp_item * list Z) :=
   end.
 
 (* input: 0|1 ; cl ; chunked ; buf ; has_max ; max ; data ; sched     (0: Request.body, 1: text of a form body)
-          2 ; max_read ; items                                          (multipart budget) *)
+          2 ; max_read ; boundary ; body                                (multipart in-memory budget) *)
 Definition corr_C13 (inp : list Z) : list Z :=
   match inp with
   | 2%Z :: mr :: r =>
-    match dec_list dec_item r with
-    | Some (items, _) =>
-      match mp_budget items mr 0 with
-      | BudgetOk l => [0%Z; l]
-      | BudgetExceeded i =>
-        (* through Request.POST the error is mapped like every RequestError (after fix F16) *)
-        [1%Z; Z.of_nat i; match raise_status Gen.errors_map cls_BodySizeError cls_RequestError with
-                          | Some c => c | None => (-1)%Z end]
+    match dec_str r with
+    | Some (B, r1) =>
+      match dec_str r1 with
+      | Some (body, _) => mp_run B body mr
+      | None => bad_input
       end
     | None => bad_input
     end
